@@ -627,6 +627,11 @@ fn explain(image: &DirImage, truth: &Truth, thread: &str, fault_log: &[(String, 
 }
 
 pub fn compare_store(root: &Path, ws: &Path, image: &DirImage, truth: &Truth, query_seed: u64, max_threads: usize, stats: &mut RunStats, known: &[String], fault_log: &[(String, String)]) -> Result<Option<Violation>, String> {
+    compare_store_only(root, ws, image, truth, query_seed, max_threads, stats, known, fault_log, None)
+}
+
+#[allow(clippy::too_many_arguments)]
+pub fn compare_store_only(root: &Path, ws: &Path, image: &DirImage, truth: &Truth, query_seed: u64, max_threads: usize, stats: &mut RunStats, known: &[String], fault_log: &[(String, String)], only: Option<&[String]>) -> Result<Option<Violation>, String> {
     // thread lookup by id goes through index.json, whose loss is only claimed for default-thread
     // recovery: query the threads the index knows
     let indexed: Option<Vec<String>> = image
@@ -635,6 +640,10 @@ pub fn compare_store(root: &Path, ws: &Path, image: &DirImage, truth: &Truth, qu
         .and_then(|v| v.get("continuities").and_then(|c| c.as_object()).map(|o| o.keys().cloned().collect()));
     let Some(indexed) = indexed else {
         return Ok(None);
+    };
+    let indexed: Vec<String> = match only {
+        Some(o) => indexed.into_iter().filter(|t| o.contains(t)).collect(),
+        None => indexed,
     };
     let queries = gen_queries(truth, query_seed, max_threads, Some(&indexed));
     if queries.is_empty() {
